@@ -20,16 +20,40 @@ EXPLANATION = (
     'It does NOT decide concrete strings.')
 
 
+def _kw_text(fn: FuncInfo, call: ast.Call, kw: str) -> list[str]:
+    """the text of keyword `kw` of a call, a local that is assigned exactly once replaced by what it was assigned"""
+    out = []
+    for k in call.keywords:
+        if k.arg == kw:
+            v = k.value
+            if isinstance(v, ast.Name):
+                defs = [a.value for a in walk_no_nested(fn.node) if isinstance(a, ast.Assign) and len(a.targets) == 1
+                        and isinstance(a.targets[0], ast.Name) and a.targets[0].id == v.id]
+                if len(defs) == 1:
+                    v = defs[0]
+            out.append(norm(v))
+    return out
+
+
 def rule_ind_flow(ctx: RuleContext, p: Program, rid: str) -> None:
     ctx.rule(rid, 'mapping assignment creates MetaItem.from_value(key, value, indent=self._get_indent()); _get_indent = first '
                   'sibling\'s indent if any else default getter; default = parent indent + indent_by (or indent_by alone)')
     w = p.cls('RepeatedMetaItemWrapper', 'models.meta_item_internal')
     st = p.method(w, '__setitem__', inherited=False)
     creates = [c for c in walk_no_nested(st.node) if isinstance(c, ast.Call) and norm(c.func).endswith('MetaItem.from_value')]
-    ok = len(creates) == 1 and any(k.arg == 'indent' and norm(k.value) == 'self._get_indent()' for k in creates[0].keywords)
+    ok = len(creates) == 1 and _kw_text(st, creates[0], 'indent') == ['self._get_indent()']
     ctx.check(ok, rid, 'models.meta_item_internal:RepeatedMetaItemWrapper.__setitem__', norm(creates[0])[:120] if creates else 'no creation',
               'a meta item created by `meta[key] = value` is not given indent=self._get_indent()', st.where,
               note='indent=self._get_indent()')
+    # ... and so does every other method of the mapping views that creates items from plain values (an update() override, setdefault)
+    for vw in [k for k in p.module('models.meta_item_internal').classes]:
+        for fn_ in [f for f in vw.attrs.values() if isinstance(f, FuncInfo)]:
+            for c_ in walk_no_nested(fn_.node):
+                if isinstance(c_, ast.Call) and (norm(c_.func).endswith('MetaItem.from_value') or norm(c_.func) == 'from_mapping') and fn_ is not st:
+                    ind = _kw_text(fn_, c_, 'indent')
+                    ctx.check(ind == ['self._get_indent()'], rid, f'models.meta_item_internal:{vw.name}.{fn_.name}', norm(c_)[:100],
+                              f'{vw.name}.{fn_.name} creates meta items with `{norm(c_)[:90]}`: indent is {ind or "left to a default"}, not self._get_indent() '
+                              f'-- new items ignore the indentation their existing siblings share', fn_.where, note='indent=self._get_indent()')
     # the update path must not touch indentation: only `item.value = value`
     upd = [a for a in walk_no_nested(st.node) if isinstance(a, ast.Assign) and isinstance(a.targets[0], ast.Attribute)]
     ctx.check(all(a.targets[0].attr == 'value' for a in upd), rid,  # type: ignore[union-attr]
@@ -169,6 +193,18 @@ def rule_ind_class(ctx: RuleContext, p: Program, rid: str) -> None:
                 if kind != 'optional_string_property':
                     problems.append(f'{d.name} uses {kind} in a class without an _indent field')
         fv = c.attrs.get('from_value')
+        # hand-written subclasses (models/transaction.py, document.py, note.py, custom.py) override from_value: every meta mapping they
+        # turn into items gets the same indentation rule, whatever the shape of the function
+        for sub in [k for k in p.classes if c in k.mro and k is not c and isinstance(k.attrs.get('from_value'), FuncInfo)]:
+            sfv = sub.attrs['from_value']
+            calls = [x for x in walk_no_nested(sfv.node) if isinstance(x, ast.Call) and norm(x.func).endswith('from_mapping')]
+            want = 'indent + indent_by' if has_indent else 'indent_by'
+            for x in calls:
+                got = _kw_text(sfv, x, 'indent')
+                if got != [want]:
+                    problems.append(f'{sub.name}.from_value ({sub.module.relpath}) indents meta by {got or "the default of from_mapping"}, expected {want}')
+            if meta and not calls:
+                problems.append(f'{sub.name}.from_value ({sub.module.relpath}) does not build its meta items through from_mapping(meta, indent=...)')
         if isinstance(fv, FuncInfo):
             e = single_return_expr(fv)
             if isinstance(e, ast.Call):
